@@ -586,7 +586,39 @@ func nonNegative(v ssa.Value, inProgress map[ssa.Value]bool, depth int) bool {
 		case token.ADD:
 			return nonNegative(x.X, inProgress, depth+1) && nonNegative(x.Y, inProgress, depth+1)
 		}
+	case *ssa.Extract:
+		// result i of a module function: every return's i-th value
+		if call, ok := x.Tuple.(*ssa.Call); ok {
+			if c := call.Call.StaticCallee(); c != nil && inModule(c) && len(c.Blocks) > 0 {
+				inProgress[v] = true
+				defer delete(inProgress, v)
+				n, all := 0, true
+				eachInstr(c, func(in ssa.Instruction) {
+					if ret, ok := in.(*ssa.Return); ok && x.Index < len(ret.Results) {
+						n++
+						if !nonNegative(ret.Results[x.Index], inProgress, depth+1) {
+							all = false
+						}
+					}
+				})
+				return n > 0 && all
+			}
+		}
 	case *ssa.Call:
+		if c := x.Call.StaticCallee(); c != nil && inModule(c) && len(c.Blocks) > 0 && c.Signature.Results().Len() == 1 {
+			inProgress[v] = true
+			defer delete(inProgress, v)
+			n, all := 0, true
+			eachInstr(c, func(in ssa.Instruction) {
+				if ret, ok := in.(*ssa.Return); ok && len(ret.Results) == 1 {
+					n++
+					if !nonNegative(ret.Results[0], inProgress, depth+1) {
+						all = false
+					}
+				}
+			})
+			return n > 0 && all
+		}
 		if b, ok := x.Call.Value.(*ssa.Builtin); ok {
 			switch b.Name() {
 			case "max":
